@@ -56,6 +56,14 @@ mod absolute_to_relative_time {
         deadline.serialize(serializer)
     }
 
+    /// `now + remaining`, except that a remaining time too large for an `Instant` (the value comes
+    /// off the wire, so a peer can send anything) yields a deadline 30 years away instead of
+    /// panicking on overflow.
+    fn saturating_deadline(now: Instant, remaining: Duration) -> Instant {
+        const FAR_FUTURE: Duration = Duration::from_secs(86_400 * 365 * 30);
+        now.checked_add(remaining).unwrap_or(now + FAR_FUTURE)
+    }
+
     #[cfg_attr(feature = "verif-hooks", allow(unreachable_code))]
     pub fn deserialize<'de, D>(deserializer: D) -> Result<Instant, D::Error>
     where
@@ -63,8 +71,8 @@ mod absolute_to_relative_time {
     {
         let deadline = Duration::deserialize(deserializer)?;
         #[cfg(feature = "verif-hooks")]
-        return Ok(crate::verif_hooks::now() + deadline);
-        Ok(Instant::now() + deadline)
+        return Ok(saturating_deadline(crate::verif_hooks::now(), deadline));
+        Ok(saturating_deadline(Instant::now(), deadline))
     }
 
     #[cfg(test)]
